@@ -190,6 +190,85 @@ var actions = map[string]func() string{
 	},
 }
 
+
+// ---- storms: many calls with DIFFERENT inputs from every goroutine, each result compared with the value
+// the same call gives when run alone. A cold-start action makes one call per goroutine; a storm looks for
+// state that is correctly locked but not atomic across a lookup and its use (a one-entry memo read in
+// two critical sections), which only shows when goroutines work on different inputs at once.
+
+type stormItem struct {
+	name string
+	f    func() string
+	want string
+}
+
+var stormItems []stormItem
+
+func stormKey(i int) []byte {
+	k := det(fmt.Sprintf("storm-key-%d", i), 32)
+	k[0] &= 0x7f
+	return k
+}
+
+func buildStorm() {
+	add := func(name string, f func() string) { stormItems = append(stormItems, stormItem{name: name, f: f}) }
+	for i := 0; i < 5; i++ {
+		k := stormKey(i)
+		pubC, pubU, pubX := ecc.GetPublicKeyCompressed(k), ecc.GetPublicKeyUncompressed(k), ecc.GetPublicKeySchnorr(k)
+		add(fmt.Sprintf("DeserializePoint(c%d)", i), func() string { x, y, err := ecc.DeserializePoint(pubC); return fmt.Sprintf("%x %x %v", x, y, err) })
+		add(fmt.Sprintf("DeserializePoint(u%d)", i), func() string { x, y, err := ecc.DeserializePoint(pubU); return fmt.Sprintf("%x %x %v", x, y, err) })
+		add(fmt.Sprintf("DeserializePoint(x%d)", i), func() string { x, y, err := ecc.DeserializePoint(pubX); return fmt.Sprintf("%x %x %v", x, y, err) })
+		add(fmt.Sprintf("UncompressPublicKey(%d)", i), func() string { u, err := ecc.UncompressPublicKey(pubC); return fmt.Sprintf("%x %v", u, err) })
+		add(fmt.Sprintf("CompressPublicKey(%d)", i), func() string { c, err := ecc.CompressPublicKey(pubU); return fmt.Sprintf("%x %v", c, err) })
+		msg := det(fmt.Sprintf("storm-msg-%d", i), 32)
+		sig := ecc.SignSchnorr(k, msg, det("aux", 32))
+		add(fmt.Sprintf("VerifySchnorr(%d)", i), func() string { return fmt.Sprint(ecc.VerifySchnorr(pubX, msg, sig)) })
+		r, sv := ecc.SignECDSA(k, msg)
+		add(fmt.Sprintf("VerifyECDSA(%d)", i), func() string { return fmt.Sprint(ecc.VerifyECDSA(pubC, msg, r, sv)) })
+		add(fmt.Sprintf("TweakPublicKey(%d)", i), func() string { q, odd, err := taproot.TweakPublicKey(pubX, msg); return fmt.Sprintf("%x %v %v", q, odd, err) })
+		add(fmt.Sprintf("DerivePublicChild(%d)", i), func() string {
+			ck, cc, err := bip32.DerivePublicChild(pubC, chain, uint32(i), 7)
+			return fmt.Sprintf("%x %x %v", ck, cc, err)
+		})
+		payload := det(fmt.Sprintf("storm-b58-%d", i), 20+i*13)
+		b58s, b58c := base58.Encode(payload), base58check.Encode(payload)
+		add(fmt.Sprintf("base58.Decode(%d)", i), func() string { d, err := base58.Decode(b58s); return fmt.Sprintf("%x %v", d, err) })
+		add(fmt.Sprintf("base58check.Decode(%d)", i), func() string { d, err := base58check.Decode(b58c); return fmt.Sprintf("%x %v", d, err) })
+		if bs, err := bech32.Encode("bc", 0, payload[:20]); err == nil {
+			add(fmt.Sprintf("bech32.Decode(%d)", i), func() string { h, v, d, err := bech32.Decode(bs); return fmt.Sprintf("%s %d %x %v", h, v, d, err) })
+			add(fmt.Sprintf("address.Decode(%d)", i), func() string { f, spk, err := address.Decode(bs); return fmt.Sprintf("%v %x %v", f, spk, err) })
+		}
+		w, _ := wif.Encode(k, 0x80)
+		add(fmt.Sprintf("wif.Decode(%d)", i), func() string { d, v, c, err := wif.Decode(w); return fmt.Sprintf("%x %d %v %v", d, v, c, err) })
+		ent := det(fmt.Sprintf("storm-ent-%d", i), 16+4*i)
+		if words, err := bip39.EncodeToWords(ent); err == nil {
+			add(fmt.Sprintf("bip39.DecodeWords(%d)", i), func() string { e, err := bip39.DecodeWords(words); return fmt.Sprintf("%x %v", e, err) })
+		}
+	}
+	// the value of every call when run alone
+	for i := range stormItems {
+		stormItems[i].want = stormItems[i].f()
+	}
+}
+
+func storm(offset int) string {
+	for j := 0; j < 250; j++ {
+		it := &stormItems[(offset*7+j*3)%len(stormItems)]
+		got := func() (s string) {
+			defer func() {
+				if e := recover(); e != nil {
+					s = fmt.Sprintf("panic %v", e)
+				}
+			}()
+			return it.f()
+		}()
+		if got != it.want {
+			return fmt.Sprintf("%s returned %s under concurrency, %s when run alone", it.name, got, it.want)
+		}
+	}
+	return "ok"
+}
+
 func main() {
 	g := flag.Int("g", 4, "goroutines")
 	procs := flag.Int("procs", 4, "GOMAXPROCS")
@@ -203,6 +282,7 @@ func main() {
 		for k := range actions {
 			names = append(names, k)
 		}
+		names = append(names, "storm")
 		sort.Strings(names)
 		fmt.Println(strings.Join(names, ","))
 		return
@@ -211,9 +291,18 @@ func main() {
 	http.DefaultClient.Transport = rec
 	conn, _ = rpc.NewConnection("http://127.0.0.1:1/", "u", "p")
 	names := strings.Split(*opsFlag, ",")
+	for _, n := range names {
+		if strings.HasPrefix(n, "storm") && stormItems == nil {
+			buildStorm() // sequential: the expected values are those of calls run alone
+		}
+	}
 	results := make([]string, *g)
 	run := func(i int) {
 		name := names[i%len(names)]
+		if strings.HasPrefix(name, "storm") {
+			results[i] = storm(i)
+			return
+		}
 		f, ok := actions[name]
 		if !ok {
 			results[i] = "unknown-action"
